@@ -362,7 +362,7 @@ func TestC11(t *testing.T) {
 	// (b) sampled trees of depth <= 4, random spacing, redundant parentheses
 	n := 80000
 	if thorough() {
-		n = 4000000
+		n = 20000000
 	}
 	n /= nsh
 	values := []string{"0", "1", "5", "3", "-1", "-7", "010", "0x10", "0XfF", "", "9223372036854775807", "-9223372036854775808", "63", "64", "abc", "1z", "08", "0x", "+2"}
